@@ -441,6 +441,10 @@ type FuncSpec struct {
 	CbRequires []Clause
 	CbEnsures  []Clause
 	CbModifies []string
+	// StoreChecks: "check_at_store v label: expr" - the expression must hold
+	// in the state right after every assignment to the local variable v
+	// (other than its initialisation to a constant).
+	StoreChecks map[string][]Clause
 }
 
 type SpecFn struct {
@@ -511,7 +515,7 @@ func newContractSet() *ContractSet {
 var clauseKeywords = map[string]bool{
 	"requires": true, "ensures": true, "modifies": true, "loop": true, "invariant": true,
 	"decreases": true, "func": true, "extern": true, "spec": true, "lemma": true, "pure": true,
-	"inline": true, "panics": true, "trusted": true, "induction": true, "use": true, "def": true, "call": true, "apply": true, "apply_head": true, "apply_exit": true, "opaque": true, "embedded": true, "guarded": true, "callback": true, "monitor": true, "assume_invariant": true, "residual": true,
+	"inline": true, "panics": true, "trusted": true, "induction": true, "use": true, "def": true, "call": true, "apply": true, "apply_head": true, "apply_exit": true, "opaque": true, "embedded": true, "guarded": true, "callback": true, "monitor": true, "check_at_store": true, "assume_invariant": true, "residual": true,
 }
 
 // parseContractText parses the body of one or more /*@ ... @*/ blocks (already
@@ -726,6 +730,20 @@ func (cs *ContractSet) parseContractText(text, pkgPath, file string) error {
 			for _, n := range splitComma(rest[:i]) {
 				cs.Guarded[pkgPath+"."+n] = strings.TrimSpace(rest[i+4:])
 			}
+		case "check_at_store":
+			if curF == nil {
+				return fmt.Errorf("%s: check_at_store outside func", file)
+			}
+			v, r2 := splitKW(rest)
+			label, src := splitLabel(r2)
+			e, err := parseExpr(src)
+			if err != nil {
+				return fmt.Errorf("%s: check_at_store: %v", file, err)
+			}
+			if curF.StoreChecks == nil {
+				curF.StoreChecks = map[string][]Clause{}
+			}
+			curF.StoreChecks[v] = append(curF.StoreChecks[v], Clause{Label: label, Src: src, E: e})
 		case "callback":
 			// callback requires|ensures|modifies ...: about calls through
 			// function values of unknown origin made by this function
